@@ -119,7 +119,7 @@ func init() {
 	register(&Property{
 		ID: "C03",
 		Explanation: "Decides structural conditions for a clean restart: (R3.1) in WriteBufferToFileIndirect data is written at the end-of-file offset — no re-positioning between Seek(0,SeekEnd) and the data write (known finding: the in-place continuation write); (R3.2) the index slot is revisited only after the data write and on every success path; " +
-			"(R3.3) failures of replayed writes leave replayTGData as wal.ReplayError, the only class startup tolerates (known finding: raw errors); (R3.4) the explicit panic/exit sites reachable from GetInitWALFile are exactly the frozen, justified table; (R6.4) no explicit panic below Replay; (R6.1) untrusted lengths bounded.",
+			"(R3.3) failures of replayed writes leave replayTGData as wal.ReplayError, the only class startup tolerates (known finding: raw errors); (R3.4) the explicit panic/exit sites reachable from GetInitWALFile are exactly the frozen, justified table; (R6.4) no explicit panic below Replay; (R6.1) untrusted lengths bounded; (R6.5) reader results used only after the error test.",
 		NotCovered: "implicit runtime panics other than those bounded by R6.1; readability of every bucket after arbitrary tearing.",
 		Rules: []Rule{
 			{"R3.1", "indirect data is append-only until the index moves; index after data", ruleIndirectAppendOnly},
@@ -127,19 +127,21 @@ func init() {
 			{"R3.4", "startup panic sites are the frozen table", ruleStartupPanics},
 			{"R34.8", "tolerated replay errors are recognised through error wrapping", ruleReplayErrorUnwrapped},
 			{"R6.4", "no explicit panic below Replay", ruleNoPanicUnderReplay},
+			{"R6.5", "bytes returned by the WAL reader are used only after its error was tested", ruleReadResultAfterErrCheck},
 			{"R6.1", "lengths from the log are bounded on both sides", ruleUntrustedLengths},
 		},
 	})
 	register(&Property{
 		ID: "C06",
 		Explanation: "Decides, for the readers that run before the checksum gate: (R6.1) every integer decoded from WAL bytes that sizes a buffer or bounds a slice is behind a lower- and an upper-bound test on every path; (R2.2) TG bytes reach the parser/apply loop only behind a successful checksum comparison; " +
-			"(R6.3) each iteration of the scan loop reads from the file before the next one and fullRead stops on EOF/short reads (no hang); (R6.4) no explicit panic is reachable from Replay.",
+			"(R6.3) each iteration of the scan loop reads from the file before the next one and fullRead stops on EOF/short reads (no hang); (R6.4) no explicit panic is reachable from Replay; (R6.5) every caller of wal.Read indexes/decodes the returned buffer only behind the nil-error edge (at EOF or on a short read the buffer is nil/short).",
 		NotCovered: "implicit bounds-check panics inside ParseTGData/DSVFromBytes for checksum-valid but adversarial records; that every intact TG before the damage is applied.",
 		Rules: []Rule{
 			{"R6.1", "lengths from the log are bounded on both sides", ruleUntrustedLengths},
 			{"R2.2", "checksum gate", ruleChecksumGate},
 			{"R6.3", "scan loop progress", ruleReplayLoopProgress},
 			{"R6.4", "no explicit panic below Replay", ruleNoPanicUnderReplay},
+			{"R6.5", "bytes returned by the WAL reader are used only after its error was tested", ruleReadResultAfterErrCheck},
 		},
 	})
 }
